@@ -197,8 +197,28 @@ func c02Check(ctx *core.Ctx, kind, in, df, hostile string) {
 		ctx.Count("not_parsed", 1)
 		return
 	}
+	// what may appear in the SQL is decided from the query's own tokens with the harness' own
+	// decoding of each term (not from the parsed tree, which would carry a decoding mistake
+	// along): every term's text as a possible column, every string-valued term as a possible
+	// constant, patterns also in their translated form
 	prov := &provenance{cols: map[string]bool{}, strs: map[string]bool{}}
-	collectProvenance(e, prov)
+	var toks []oracle.Tok
+	lexErr := false
+	if ctx.Call("Lexer", func() { toks, lexErr = oracle.Lex(in) }) && !lexErr {
+		for _, t := range toks {
+			if !oracle.IsTermTok(t) {
+				continue
+			}
+			if sv, isStr := oracle.TypedValue(t).Val.(string); isStr {
+				prov.cols[sv] = true
+				prov.strs[sv] = true
+				prov.strs[strings.ReplaceAll(strings.ReplaceAll(sv, "*", "%"), "?", "_")] = true
+			}
+		}
+		ctx.Count("provenance_from_tokens", 1)
+	} else {
+		collectProvenance(e, prov)
+	}
 	if df != "" {
 		prov.cols[df] = true
 	}
@@ -303,7 +323,7 @@ func (c02) Finish(res *core.Result, cov map[string]any) []string {
 	cov["distinct_nontrivial"] = res.NDistinct("nontrivial")
 	cov["exhaustive"] = true
 	cov["assumptions"] = []string{"libpg_query (PostgreSQL 15 grammar and scanner) with its defaults: standard_conforming_strings = on", "rendered SQL longer than 64 KiB or deeper than libpg_query's own stack limit is skipped and counted"}
-	cov["rule"] = "accepted inputs among token sequences up to length L (exhaustive), depth<=2 trees, fuzzed inputs, and ~200 hostile strings + every printable ASCII character placed as value, field name (raw / quoted / escaped, under every leaf kind: numeric, open and string ranges, comparisons, lists, patterns), range bound, list member, comparison operand, escaped word and default field. Each successful ToPostgres / ToParameterizedPostgres text is parsed by PostgreSQL's own grammar inside SELECT 1 FROM t WHERE (<text>): one statement, only the WHERE clause populated, no comment tokens, only whitelisted node kinds, every column a field of the query, every string constant a value of the query (none but '*' in parameterized mode). Non-trivial = distinct (mode, SQL skeleton, hostile class)."
+	cov["rule"] = "accepted inputs among token sequences up to length L (exhaustive), depth<=2 trees, fuzzed inputs, and ~200 hostile strings + every printable ASCII character placed as value, field name (raw / quoted / escaped, under every leaf kind: numeric, open and string ranges, comparisons, lists, patterns), range bound, list member, comparison operand, escaped word and default field. Columns and string constants are admitted from the query's own token texts as decoded by the harness (not from the parsed tree). Each successful ToPostgres / ToParameterizedPostgres text is parsed by PostgreSQL's own grammar inside SELECT 1 FROM t WHERE (<text>): one statement, only the WHERE clause populated, no comment tokens, only whitelisted node kinds, every column a field of the query, every string constant a value of the query (none but '*' in parameterized mode). Non-trivial = distinct (mode, SQL skeleton, hostile class)."
 	floor(res.Counters["renders_checked_inline"] >= 2000 && res.Counters["renders_checked_param"] >= 2000, &reasons, "renders checked %d/%d", res.Counters["renders_checked_inline"], res.Counters["renders_checked_param"])
 	floor(res.NDistinct("hostile_as_constant") >= 100, &reasons, "hostile strings that reached a constant: %d", res.NDistinct("hostile_as_constant"))
 	floor(res.NDistinct("hostile_as_identifier") >= 100, &reasons, "hostile strings that reached an identifier: %d", res.NDistinct("hostile_as_identifier"))
